@@ -39,6 +39,18 @@ CHECKS = {
             'ladder so that k* spreads over 2..n and exact ties occur.',
             'rdp_fixed (C05) and compute_global_cost with a fresh cache (C15) are taken as the reference',
             'DESIGN.md section 4 C06'),
+    'C09': ('runtime reference-model monitors per detector (independent long-double criteria) + loop-bound monitor on the refinement loops',
+            'Every detector answer is checked for interiority and for attaining the optimum of its criterion recomputed independently '
+            '(curvature from uts.gradient, executable DFDT cutoff loop, long-double Menger circumradius, long-double two-line L-method '
+            'error for both fits and costs with a data-derived error floor); the L-method refinement loop is bounded by n+2 steps for '
+            'every Fit x Refinement x limit >= 4.',
+            'uts.gradient / uts.thresholding taken as given; ties in an argmin/argmax accept any optimiser',
+            'DESIGN.md section 4 C09'),
+    'C15': ('runtime reference-model monitor (long double) on compute_global_cost / compute_global_rmse / mip + online cache-transparency and cache-audit monitor',
+            'Every call (also the ones made inside global RDP) is compared with an independent model of the definition, re-evaluated '
+            'with a fresh cache and compared bit for bit, and the shared cache is audited entry by entry across the whole query history.',
+            'relative metrics compared numerically only away from y = 0; structural clauses everywhere',
+            'DESIGN.md section 4 C15'),
 }
 
 BUILDING = {}   # id -> reason (properties not claimed yet)
